@@ -8,7 +8,7 @@ from dataclasses import dataclass, replace
 
 import sympy as sp
 
-from ..core import AnalysisError, FuncInfo, const_value, dotted, unparse, walk_no_nested
+from ..core import seq, AnalysisError, FuncInfo, const_value, dotted, unparse, walk_no_nested
 from ..report import Ctx
 from ..sym import ToSympy, equal
 from ..tables import AS241
@@ -365,7 +365,7 @@ def _base_generators(ctx: Ctx) -> None:
             rets = [n for n in walk_no_nested(f.node) if isinstance(n, ast.Return)]
             ok = ok and len(rets) == 1 and unparse(rets[0].value) == tgt
             # nothing rescales the array after the symmetric map
-            later = [s for s in _assigns_to(f, tgt) if s.lineno > a.lineno]
+            later = [s for s in _assigns_to(f, tgt) if seq(s) > seq(a)]
             ok = ok and not later
         ctx.add('C11.R2', f'draws.{fname}:symmetric', ok, (f.file, hits[0].lineno if hits else f.line),
                 f'symmetric variant of {fname} is the map 2u-1 of the returned array' if ok else f'symmetric branch of {fname} is not `x = 2x-1` on the returned array: {det}', det)
